@@ -14,6 +14,8 @@ package regclient
 //@ ghost $gets int
 //@ ghost $puts int
 //@ ghost $putOK bool
+//@ ghost $copyDone bool
+//@ ghost $copyErr error
 //@ func (*RegClient).BlobHead(ctx, r, d) (b, err)
 //@   trusted ghost bookkeeping only
 //@   effect $headDone = true
@@ -50,6 +52,8 @@ package regclient
 //@ func (*RegClient).BlobCopy(ctx, refSrc, refTgt, d, opts) (err)
 //@   prop C14, C03
 //@   entry-assume !$headDone && !$mountDone && !$mountOK && $gets == 0 && $puts == 0
+//@   effect $copyDone = true
+//@   effect $copyErr = err
 //@   ensures at-most-one-transfer: $gets <= 1 && $puts <= 1 && $puts <= $gets
 //@   ensures same-repository-moves-nothing: ref.EqualRepository(refSrc, refTgt) ==> $gets == 0 && $puts == 0 && !$mountDone && !$headDone
 //@   ensures present-moves-nothing: $headDone && $headOK ==> $gets == 0 && $puts == 0 && !$mountDone
@@ -123,3 +127,26 @@ package regclient
 //@   entry-assume $sent == 0
 //@   on-send waitCh: $sent = $sent + 1
 //@   ensures one-send: $sent == 1
+
+// C03/C04: the existence probe that lets BlobCopy skip a transfer must ask the TARGET repository
+// for exactly this blob: a descriptor carrying external URLs would let a reachable external URL
+// answer the probe ("HEAD 2xx means present at the target" only holds for the target itself).
+//@ callsite (*RegClient).BlobHead(ctx, r, d)
+//@   prop C03
+//@   name BlobHead/BlobCopy
+//@   in ~
+//@   infunc \)\.BlobCopy$
+//@   requires probes-target-only: r == caller.refTgt && len(d.URLs) == 0 && d.Digest == caller.d.Digest
+
+// C03/C04: the result published to other tasks waiting on the same blob (imageSeenOrWait) is
+// the result of the copy that was actually performed.
+//@ callsite var:seenCB(e)
+//@   prop C03, C04
+//@   name seenCB/imageCopyBlob
+//@   in ~
+//@   infunc \)\.imageCopyBlob$
+//@   requires publishes-copy-result: $copyDone && e == $copyErr
+//@ func (*RegClient).imageCopyBlob(ctx, refSrc, refTgt, d, opt, bOpt) (err)
+//@   prop C03, C04
+//@   entry-assume !$copyDone
+//@   ensures returns-copy-result: $copyDone ==> err == $copyErr
